@@ -175,6 +175,18 @@ def impl_meta(payload):
             for nt in c['threads_alt']:
                 rec[f'threads{nt}'] = run(pos, w, nt)
             rec['cross'] = run(pos, w, c['nthread'], pos2=pos.copy(), w2=None if w is None else w.copy())
+            # the SAME array objects as both fields, then once more as an auto spectrum: a caller's catalogue that a call has
+            # seen must still be that catalogue (up to the documented in-place periodic wrap)
+            k = dict(kw)
+            L_ = k.pop('Lbox')
+            P, W = pos.copy(), None if w is None else w.copy()
+            rec['cross_same_object'] = _table(calc_power(P, L_, w=W, nthread=c['nthread'], pos2=P, w2=W, **k))
+            rec['auto_after_reuse'] = _table(calc_power(P, L_, w=W, nthread=c['nthread'], **k))
+            moved = np.abs(np.mod(P.astype(np.float64), L) - np.mod(pos.astype(np.float64), L))
+            moved = np.minimum(moved, L - moved)
+            if moved.max(initial=0.0) > 1e-5 * L or (W is not None and not np.array_equal(W, w)):
+                rec['caller_arrays_moved'] = {'max_displacement_in_cells': float(moved.max(initial=0.0)) * n / L,
+                                              'weights_changed': bool(W is not None and not np.array_equal(W, w))}
             # cross with both fields permuted / shifted consistently
             sh = np.array(c['shifts'][0], dtype=np.float32)
             p2 = np.mod(pos + sh, np.float32(L)).astype(np.float32)
@@ -353,8 +365,11 @@ def judge(c, rec):
     if rec['class'] != 'ok':
         return [('error', rec.get('error'))]
     base = rec['base']
+    if rec.get('caller_arrays_moved'):
+        out.append(('caller-arrays-moved', dict(rec['caller_arrays_moved'], variant='cross_same_object',
+                                                what='calc_power displaced the particles of the caller (beyond a periodic wrap)')))
     for name, other in rec.items():
-        if name in ('class', 'base', 'error'):
+        if name in ('class', 'base', 'error', 'caller_arrays_moved'):
             continue
         if name == 'other':
             d = compare(base, other, cols_float=False)
@@ -366,7 +381,8 @@ def judge(c, rec):
             rel = 'cellshift-cross'
         else:
             d = compare(base, other)
-            rel = {'perm': 'permutation', 'cross': 'cross-equals-auto'}.get(name) or \
+            rel = {'perm': 'permutation', 'cross': 'cross-equals-auto', 'cross_same_object': 'cross-equals-auto',
+                   'auto_after_reuse': 'reused-arrays'}.get(name) or \
                 ('cellshift' if name.startswith('shift') else 'threads')
         if d:
             d['variant'] = name
